@@ -23,12 +23,16 @@ type c20Params struct {
 	truncIface string // "TruncateableTable"
 	truncM     string // "Truncate"
 	setM       string // "SetAutoIncrementValue" (the ALTER TABLE … AUTO_INCREMENT = n entry)
+	rowType    string // "Row" (in sqlRel): elements of such values are row cells (rules N, U)
+	accIface   string // "tableEditAccumulator" (in rel): the interface through which rows are handed to the table
+	accAdd     string // "Insert": its row-adding method
 	floors     map[string]int
 }
 
 var c20Repo = c20Params{rel: "memory", structName: "TableData", field: "autoIncVal", sqlRel: "sql", colType: "Column", colField: "AutoIncrement",
 	truncIface: "TruncateableTable", truncM: "Truncate", setM: "SetAutoIncrementValue",
-	floors: map[string]int{"C20-W": 13, "C20-H": 1, "C20-R": 2}}
+	rowType: "Row", accIface: "tableEditAccumulator", accAdd: "Insert",
+	floors: map[string]int{"C20-W": 13, "C20-H": 1, "C20-R": 2, "C20-N": 2, "C20-U": 2}}
 
 // c20RExceptions: callers of a resetting helper that neither are the TRUNCATE entry point nor restore the counter.
 var c20RExceptions = map[string]string{
@@ -41,18 +45,25 @@ func init() {
 		Patterns: []string{"./memory"},
 		Explanation: "Every write of the in-memory AUTO_INCREMENT counter (TableData.autoIncVal) is classified by the SSA shape of the stored value and of its control dependence, wherever the write is located: (W) monotone — the value is the Uint64 conversion of x and the store is control-dependent on `Compare(x, current counter) > 0`; increment — the address of the counter is passed to a helper; reset — the constants 0/1 into a freshly allocated TableData, or into an existing one under a branch on Column.AutoIncrement (the auto column is being added or removed), or unconditionally inside an unexported helper (whose callers rule R checks); copy — the value is loaded from another counter; explicit — the value is the parameter of SetAutoIncrementValue. Any other store is a violation. " +
 			"(H) every helper that receives the counter's address stores only `current + 1`, guarded against math.MaxUint64 and by an in-range conversion of the new value for the column type. " +
-			"(R) an unconditional resetting helper (TableData.truncate) may be called only from the TRUNCATE entry point (the method implementing sql.TruncateableTable) or by a function that afterwards restores the counter with a copy-shaped store: a table rewrite is not a TRUNCATE.",
-		NotCovered: "LAST_INSERT_ID() / OkResult.InsertID reporting, the expression-level AutoIncrement node, ALTER semantics beyond carrying the counter over, concurrency of the counter",
-		Technique:  "who-may-write over go/ssa (all stores and address escapes of one struct field) + dominance-based control dependence + static call graph",
+			"(R) an unconditional resetting helper (TableData.truncate) may be called only from the TRUNCATE entry point (the method implementing sql.TruncateableTable) or by a function that afterwards restores the counter with a copy-shaped store: a table rewrite is not a TRUNCATE. " +
+			"(N) the counter means `next value to hand out`: whenever a function learns a row cell (an element of a sql.Row value, or a parameter an in-package caller binds to one) — it compares the cell with the counter or stores its conversion into the counter — the counter is strictly greater than that cell at every return that may be a success. Decided by abstract interpretation of sign(cell − counter) along every SSA path: Compare gives {<,=,>} refined by the branches on its result while the counter is unwritten, `counter = cell` gives {=}, `counter = cell + k` gives {<}, the increment helper maps = to <, and only {<} may reach a normal return; interprocedural over static in-package calls (callee effect per abstract input, the compare result may be returned to the caller), with earlier cells of a loop folded into a pending flag. " +
+			"(U) every function that hands a row to the edit accumulator (tableEditAccumulator.Insert: the row will be stored) compares that row's cell with the counter, itself or in a callee receiving the row.",
+		NotCovered: "LAST_INSERT_ID() / OkResult.InsertID reporting, the expression-level AutoIncrement node (GetNextAutoIncrementValue reserves a proposed value, not a stored cell: it is outside N), ALTER semantics beyond carrying the counter over, concurrency of the counter, that two counter addresses in one function denote the same TableData (N identifies the counter by field, as W does), that the compared cell is the AUTO_INCREMENT column's cell (index not checked), rows written to partitions without going through the accumulator",
+		Technique:  "who-may-write over go/ssa (all stores and address escapes of one struct field) + dominance-based control dependence + static call graph; N: path-sensitive abstract interpretation (sign of cell − counter) over the SSA CFG with interprocedural summaries",
 		Run:        func(c *Ctx) { runC20(c, c20Repo) },
 		Fixture: func(c *Ctx, fx *Prog) {
 			p := c20Params{rel: "testdata/c20/mem", structName: "TableData", field: "autoIncVal", sqlRel: "testdata/c20/sql", colType: "Column", colField: "AutoIncrement",
-				truncIface: "TruncateableTable", truncM: "Truncate", setM: "SetAutoIncrementValue", floors: map[string]int{}}
+				truncIface: "TruncateableTable", truncM: "Truncate", setM: "SetAutoIncrementValue",
+				rowType: "Row", accIface: "rowStore", accAdd: "Put", floors: map[string]int{}}
 			expectFixture(c, fx, "c20: non-monotone counter writes must be reported", []string{
 				"C20-W:Table.Insert/unclassified",
 				"C20-W:Table.Delete/unclassified",
 				"C20-H:bumpUnsafe/increment-shape",
 				"C20-R:Table.Rewrite/calls TableData.truncate",
+				"C20-N:Table.InsertNoBump/counter-past-stored-cell",
+				"C20-N:Table.InsertEqualNotBumped/counter-past-stored-cell",
+				"C20-N:Table.InsertSplitNoBump/counter-past-stored-cell",
+				"C20-U:Table.Update/stores row via rowStore.Put",
 			}, func(fc *Ctx) { runC20(fc, p) })
 		},
 		FixturePkgs: []string{"./testdata/c20/sql", "./testdata/c20/mem"},
@@ -575,4 +586,6 @@ func runC20(c *Ctx, p c20Params) {
 		}
 	}
 	_ = strings.TrimSpace
+
+	runC20Next(c, p, pk.Types, sqlPk.Types, tn, fieldIdx, funcs, pkgOf, short, helpers)
 }
